@@ -108,7 +108,7 @@ def add(x, y):
     if y == Z:
         return x
     if x[1] == y[1]:
-        return m(max(x[2], y[2]), max(x[3], y[3]) + 1, x[1])
+        return m(max(x[2], y[2]) + (1 if x[2] == y[2] else 0), max(x[3], y[3]) + 1, x[1])
     big, small = (x, y) if x[2] >= y[2] else (y, x)
     if big[2] >= small[3] + 2:
         return m(big[2] - 1, big[3], big[1])
